@@ -122,6 +122,21 @@ def library_chars(model):
     for short in TEXT_MODULES:
         mod = model.module(short)
         for n in ast.walk(mod.tree):
+            # constants imported from the standard library (codecs.BOM_UTF8, string.whitespace, ...)
+            names = []
+            if isinstance(n, ast.ImportFrom) and n.module in ("codecs", "string"):
+                names = [(n.module, a.name) for a in n.names]
+            elif isinstance(n, ast.Attribute) and isinstance(n.value, ast.Name) and n.value.id in ("codecs", "string"):
+                names = [(n.value.id, n.attr)]
+            for modname, nm in names:
+                v = getattr(__import__(modname), nm, None)
+                if isinstance(v, bytes):
+                    try:
+                        v = v.decode("utf-8")
+                    except UnicodeDecodeError:
+                        v = v.decode("latin-1")
+                if isinstance(v, str) and len(v) <= 16:
+                    out.update(v)
             if isinstance(n, ast.Call) and isinstance(n.func, ast.Attribute):
                 a = n.func.attr
                 if a in LIB_CHARS:
